@@ -94,20 +94,23 @@ CLAIMS = {
             "Trusted: engine B + segmented buffers; cp1252/'replace' gives one byte per character; C08 for encode_string.",
             "abstract interpretation of the class over segmented abstract buffers (affine domain, path forking)",
             "B", "DESIGN.md section 4, C09"),
-    "C10": ("other",
-            "Decides: flip_msb is an involution fixing 0 and 128 on all 256 values, length-preserving and element-local "
-            "(abstract interpretation, bit operations as div/mod identities, translate tables as piecewise-affine runs); "
-            "swap_multiples rejects negative and returns on zero before any mutation (all paths) and mutates only by "
-            "two-index swaps (length and multiset preserved); interleave/deinterleave keep the length, their index "
-            "schedule never reads the contents, and -- by closed-form summarisation of the weave loops over a symbolic "
-            "length 2m+rho (trip counts and per-iteration strides as affine forms) -- each is a total permutation of "
-            "positions and deinterleave undoes interleave copy family by copy family on every parity/emptiness/early-return "
-            "path. Does NOT decide: swap_multiples involution/fixed non-multiples (listed as undecided in evidence).",
-            "Trusted: engine A/B. An unknown mutation idiom or a loop the summariser cannot put in closed form is an "
-            "ANALYSIS-ERROR, not a verdict; a symbolic mismatch is reported only with a concrete length at which the "
-            "instantiated summaries disagree.",
-            "abstract interpretation over an abstract buffer + closed-form loop summarisation (affine trip counts) + "
-            "structural mutation-idiom and def-use taint rules",
+    "C10": ("proof",
+            "Decides every clause for all inputs: flip_msb is an involution fixing 0 and 128 on all 256 values, "
+            "length-preserving and element-local (abstract interpretation, bit operations as div/mod identities, translate "
+            "tables as piecewise-affine runs); swap_multiples rejects negative and returns on zero before any mutation (all "
+            "paths), and one generic iteration of its scanning loop, interpreted over a symbolic store under the run-counter "
+            "hypothesis, meets obligations R0-R5 (counter inductive; stores only inside the scanned run of multiples; the "
+            "iteration's effect is a set of pairwise disjoint transpositions or an exact slice reversal; indices in bounds; "
+            "element-local multiple test), which by the theorem in DESIGN.md give length, multiset, fixed non-multiples and "
+            "involution; interleave/deinterleave keep the length, their index schedule never reads the contents, and by "
+            "closed-form summarisation of the weave loops over a symbolic length 2m+rho each is a total permutation of "
+            "positions and deinterleave undoes interleave copy family by copy family on every path.",
+            "Trusted: engine A/B and the two paper arguments in DESIGN.md (run theorem, family composition). Statement forms "
+            "outside the summarisers' subset are an ANALYSIS-ERROR, not a verdict; a failed obligation is reported only with a "
+            "concrete witness obtained by instantiating the extracted summary (a length for the weave, a multiple-pattern of "
+            "at most 7 positions for the runs), otherwise exit 2.",
+            "abstract interpretation over symbolic buffers/stores + closed-form loop summarisation (affine trip counts) + "
+            "inductive run-counter invariant + def-use taint rules",
             "A+B", "DESIGN.md section 4, C10"),
     "C11": ("proof",
             "server_verification_hash and the published formula (C remainder written through floor-mod) are interpreted "
